@@ -153,7 +153,11 @@ def decode_obj(v):
         if c == "PBytes":
             return bytes(a[0])
         if c == "PFloat":
-            return [0.0, 1.5, -2.25, float("inf"), float("nan"), 3.0e38, 5e-324][a[0] % 7] if isinstance(a[0], int) else 0.0
+            if not isinstance(a[0], int):
+                return 0.0
+            if a[0] in (3, 4, 7):         # reserved ids of the float model (pyvc.sym.FLOAT_*_ID)
+                return {3: float("inf"), 4: float("nan"), 7: float("-inf")}[a[0]]
+            return [0.0, 1.5, -2.25, 3.0e38, 5e-324][a[0] % 5]
         if c == "PDatetime":
             return decode_obj({"__dt_us__": a[0]})
         if c == "PTimedelta":
